@@ -612,3 +612,72 @@ Proof.
 Qed.
 
 End E2E.
+
+(* ====================================================================== *)
+(* verifier.verifyIntegrity (verifier/verifier.go:717), the first block of processSignature:
+   the model's integrity facts [envfacts] DEFINED from its two oracles
+     parse    signature.ParseEnvelope(mediaType, bytes)
+     everify  sigEnv.Verify(): (envelope content, error)
+   and the translated envelope.ValidatePayloadContentType. *)
+Section Integrity.
+Variable SE : Type.
+Variable parse : string -> list Z -> SE * option GoLib.err.
+Variable C : Type.
+Variable everify : ptr (signature_EnvelopeContent C) * option GoLib.err.
+
+(* `switch err.(type)` over the three integrity error types of notation-core-go *)
+Definition sig_error (e : option GoLib.err) : bool :=
+  err_dyn_in ["*signature.SignatureEnvelopeNotFoundError"] e
+  || err_dyn_in ["*signature.InvalidSignatureError"] e
+  || err_dyn_in ["*signature.SignatureIntegrityError"] e.
+
+Definition integrity_facts (mt : string) (sig : list Z) (decode : option target) : envfacts :=
+  mk_e (is_none (snd (parse mt sig)))
+       (match snd everify with None => VOk | Some _ => if sig_error (snd everify) then VSig else VOther end)
+       (match ptr_val (fst everify) with
+        | Some ec => Payload_ContentType (EnvelopeContent_Payload C ec)
+        | None => ""
+        end)
+       decode HNone.
+
+(* For every outcome with a level: the generated verifyIntegrity panics only when Envelope.Verify
+   returns (nil, nil); otherwise it returns one result of type "integrity" carrying the action the
+   level assigns to integrity, whose Error is nil EXACTLY WHEN the model's [verify_integrity] passes
+   on the facts above, together with Envelope.Verify's content in that case and nil otherwise *)
+
+Ltac fin :=
+  repeat split; try reflexivity; try discriminate; try congruence;
+  try (let H := fresh in intros H; first [discriminate H | reflexivity | now elim H | congruence]).
+
+Theorem gen_verifyIntegrity_equiv : forall sig mt (o : notation_go_VerificationOutcome C) lvl decode,
+  ptr_val (VerificationOutcome_VerificationLevel C o) = Some lvl ->
+  let env := integrity_facts mt sig decode in
+  match gen_verifier_verifyIntegrity SE parse C everify sig mt o with
+  | None => snd (parse mt sig) = None /\ snd everify = None /\ ptr_val (fst everify) = None
+  | Some (envp, irp) =>
+      exists r, irp = PNew r /\ ValidationResult_Type r = "integrity"
+                /\ ValidationResult_Action r = map_get_or String.eqb "" "integrity" (VerificationLevel_Enforcement lvl)
+                /\ (ValidationResult_Error r = None <-> verify_integrity env = None)
+                /\ (ValidationResult_Error r = None -> envp = fst everify /\ ptr_val envp <> None)
+                /\ (ValidationResult_Error r <> None -> envp = PNil)
+  end.
+Proof.
+  intros sig mt o lvl decode Hl env. subst env.
+  unfold gen_verifier_verifyIntegrity, integrity_facts, verify_integrity. rewrite Hl. cbn [e_parse e_verify e_ctype].
+  destruct (parse mt sig) as [se pe]. cbn [snd]. destruct pe as [x|]; cbn [negb is_none].
+  { eexists. split; [reflexivity|]. cbn. fin. }
+  destruct everify as [ec ve]. cbn [fst snd]. destruct ve as [x|]; cbn [negb is_none].
+  { fold (sig_error (Some x)). destruct (sig_error (Some x)).
+    - eexists. split; [reflexivity|]. cbn. fin.
+    - eexists. split; [reflexivity|]. cbn. fin. }
+  destruct (ptr_val ec) as [c|] eqn:Ec; [|repeat split; reflexivity].
+  pose proof (gen_ValidatePayloadContentType_nil_iff (EnvelopeContent_Payload C c)) as V.
+  destruct (gen_envelope_ValidatePayloadContentType (EnvelopeContent_Payload C c)) as [x|] eqn:G; cbn [negb is_none].
+  - assert (N : String.eqb (Payload_ContentType (EnvelopeContent_Payload C c)) media_type_payload_v1 = false).
+    { apply String.eqb_neq. intros E. apply V in E. discriminate. }
+    rewrite N. eexists. split; [reflexivity|]. cbn. fin.
+  - rewrite (proj1 V eq_refl), String.eqb_refl.
+    eexists. split; [reflexivity|]. cbn. fin.
+Qed.
+
+End Integrity.
